@@ -21,6 +21,7 @@ from .forwarding import estimators_all, init_obligations
 SELF = ("var", "self")
 DRAWS = ("uniform", "normal", "permutation", "choice", "randint", "rand", "randn", "random", "shuffle", "multivariate_normal", "chisquare")
 NOT_INLINED = ("_batchify",)
+MUTATING_METHODS = ("append", "extend", "insert", "remove", "pop", "clear", "sort", "reverse", "update", "setdefault", "popitem", "fill", "resize", "put")
 
 
 def _derives_from(term, pred, depth=0):
@@ -54,6 +55,7 @@ def fit_obligations():
         fn = f"{cls.__module__}.{cls.__name__}.fit"
         hp = set(inspect.signature(cls.__init__).parameters) - {"self"}
         it = fx.Interp(cls, inline_filter=lambda o, m: m not in ("path",), max_depth=8, max_paths=20000)
+        it.inline_functions = {"check_groups"}
         try:
             sts = it.run_method("fit")
         except fx.FxUnsupported as e:
@@ -107,7 +109,16 @@ def fit_obligations():
         # frame
         written = {e[2] for st in sts for e in st.events if e[0] == "store" and e[1] == SELF}
         setp = [e for st in sts for e in st.events if e[0] == "call" and e[2] == "self.set_params"]
-        ob("no constructor hyper-parameter is written by fit", not (written & hp) and not setp, {"written": sorted(written & hp)})
+        mut_hp = []
+        for st in sts:
+            for e in st.events:
+                if e[0] == "call" and isinstance(e[6], tuple) and e[6][0] == "attr" and e[6][2] in MUTATING_METHODS \
+                        and isinstance(e[6][1], tuple) and e[6][1][:2] == ("attr", SELF) and e[6][1][2] in hp:
+                    mut_hp.append(f"{e[6][1][2]}.{e[6][2]}(...)")
+                if e[0] == "mutate" and isinstance(e[1], tuple) and e[1][:2] == ("attr", SELF) and e[1][2] in hp:
+                    mut_hp.append(f"{e[1][2]} mutated in place")
+        ob("no constructor hyper-parameter is written by fit (no assignment, no set_params, no in-place mutation of a hyper-parameter object)",
+           not (written & hp) and not setp and not mut_hp, {"written": sorted(written & hp), "mutated": sorted(set(mut_hp))})
         # in-place effects on the caller's data
         bad_mut = []
         for st in sts:
@@ -191,7 +202,9 @@ def native_histories(seed, tier):
     rs = np.random.RandomState(seed)
     X1 = rs.normal(size=(16, 3))
     X2 = rs.normal(size=(11, 3)) * 2
-    mk = [lambda: LinearMMD(n_clusters=2, max_iter=4, random_state=3, batch_size=5), lambda: RIM(n_clusters=3, max_iter=3, random_state=3),
+    mk = [lambda: LinearMMD(n_clusters=2, max_iter=4, random_state=3, batch_size=5),
+          lambda: SparseLinearMMD(n_clusters=2, max_iter=3, random_state=3, alpha=0.1, groups=[[1, 0]], batch_size=4),
+          lambda: __import__("gemclus").add_mlcl_constraint(LinearMMD(n_clusters=2, max_iter=4, random_state=3, batch_size=5), must_link=[[0, 1]], cannot_link=[[2, 5]]), lambda: RIM(n_clusters=3, max_iter=3, random_state=3),
           lambda: KernelRIM(n_clusters=2, max_iter=3, random_state=3, batch_size=6), lambda: LinearWasserstein(n_clusters=2, max_iter=3, random_state=3),
           lambda: MLPMMD(n_clusters=2, max_iter=3, random_state=3, n_hidden_dim=4), lambda: SparseLinearMMD(n_clusters=2, max_iter=3, random_state=3, alpha=0.1),
           lambda: SparseMLPMMD(n_clusters=2, max_iter=3, random_state=3, n_hidden_dim=3), lambda: CategoricalMMD(n_clusters=2, max_iter=3, random_state=3),
@@ -205,7 +218,8 @@ def native_histories(seed, tier):
     def same(a, b):
         return len(a) == len(b) and all(np.array_equal(u, v) for u, v in zip(a, b))
     for f in mk:
-        name = type(f()).__name__
+        m0 = f()
+        name = type(m0).__name__ + ("+mlcl" if "_batchify" in vars(m0) else "") + ("+groups" if getattr(m0, "groups", None) else "")
         try:
             obs.append(_history_one(f, name, X1, X2, state, same))
         except Exception as e:
@@ -222,7 +236,9 @@ def _history_one(f, name, X1, X2, state, same):
     if True:
         with warnings.catch_warnings():
             warnings.simplefilter("ignore")
+            np.random.seed(123)
             ref = state(f().fit(X1))
+            np.random.seed(456)        # results must not depend on the process-wide generator
             Xc = X1.copy()
             ok = True
             why = []
@@ -235,8 +251,10 @@ def _history_one(f, name, X1, X2, state, same):
             ok &= same(state(m), ref) or why.append("after fit on other data + predict + score") is None and False
             m.fit(X1)
             ok &= same(state(m), ref) or why.append("second fit on the same object") is None and False
-            c = clone(m)
-            ok &= same(state(c.fit(X1)), ref) or why.append("clone") is None and False
+            decorated = "_batchify" in vars(m)          # must-link / cannot-link decoration lives on the instance: clone() drops it by design
+            if not decorated:
+                c = clone(m)
+                ok &= same(state(c.fit(X1)), ref) or why.append("clone") is None and False
             ok &= {k: repr(v) for k, v in m.get_params().items()} == {k: repr(v) for k, v in p0.items()} or why.append("hyper-parameters changed by fit") is None and False
             if hasattr(m, "path"):
                 r1 = f().path(X1, alpha_multiplier=2.0)
